@@ -16,6 +16,7 @@ structure UpdPost (p : Prog) (s : State) (m : Nat) (r : State × Bool) : Prop wh
   obsD : ∀ o, s.obs = some o → (s.get o).kind = .eff → (r.1.get o).dirty = true →
     (s.get o).dirty = true ∨ ∃ y ∈ (s.get o).sources, y ≠ m ∧ (s.get y).ver < (r.1.get y).ver
   valCh : ValCh s r.1
+  runRel : RunRel s r.1
 
 def UpdOK (p : Prog) (u : State → Nat → State × Bool) (f : Nat) : Prop :=
   ∀ s x, InvR p s → x < f → (s.get x).running = false → (∀ r, (s.get r).running = true → x < r) →
@@ -24,7 +25,7 @@ def UpdOK (p : Prog) (u : State → Nat → State × Bool) (f : Nat) : Prop :=
 theorem UpdPost.refl {p : Prog} {s : State} {m : Nat} (h : InvR p s)
     (hc : (s.get m).kind = .memo → (s.get m).st = .clean) : UpdPost p s m (s, false) :=
   ⟨h, Frame.refl s _, rfl, fun _ => rfl, hc, rfl, fun hc => (by cases hc), fun _ _ _ hd => .inl hd,
-   ValCh.of_val_eq (fun _ => rfl)⟩
+   ValCh.of_val_eq (fun _ => rfl), RunRel.of_eq (fun _ => rfl)⟩
 
 /-- relation between the states before and after evaluating part of the body of the running memo `m` -/
 structure EvalPost (p : Prog) (s s' : State) (m : Nat) (L : List (Nat × Int × Nat)) : Prop where
@@ -37,16 +38,19 @@ structure EvalPost (p : Prog) (s s' : State) (m : Nat) (L : List (Nat × Int × 
   seen : (s'.get m).seen = (s.get m).seen ++ L
   valCh : ValCh s s'
   obs : s'.obs = s.obs
+  runRel : RunRel s s'
 
 theorem EvalPost.refl {p : Prog} {s : State} {m : Nat} (h : InvR p s) (hl : RunLoc s m) :
     EvalPost p s s m [] :=
-  ⟨h, hl, Frame.refl s _, fun _ => rfl, rfl, rfl, by simp, ValCh.of_val_eq (fun _ => rfl), rfl⟩
+  ⟨h, hl, Frame.refl s _, fun _ => rfl, rfl, rfl, by simp, ValCh.of_val_eq (fun _ => rfl), rfl,
+   RunRel.of_eq (fun _ => rfl)⟩
 
 theorem EvalPost.trans {p : Prog} {s s1 s2 : State} {m : Nat} {L1 L2}
     (h1 : EvalPost p s s1 m L1) (h2 : EvalPost p s1 s2 m L2) : EvalPost p s s2 m (L1 ++ L2) :=
   ⟨h2.inv, h2.loc, h1.frame.trans h2.frame, fun i => (h2.running i).trans (h1.running i),
    h2.subs.trans h1.subs, h2.ver.trans h1.ver, by rw [h2.seen, h1.seen, List.append_assoc],
-   h1.valCh.trans h2.valCh h1.frame h2.frame h1.obs, h2.obs.trans h1.obs⟩
+   h1.valCh.trans h2.valCh h1.frame h2.frame h1.obs, h2.obs.trans h1.obs,
+   h1.runRel.trans h2.runRel (fun i hi => (h1.frame.clean i hi).1) (fun i hi => (h2.frame.clean i hi).1)⟩
 
 /-- appending a ghost `seen` entry to the running node -/
 theorem appendSeen_inv {p : Prog} {s : State} {m : Nat} (h : InvR p s) (hm : m < s.nodes.length)
@@ -167,6 +171,7 @@ structure ReadPost (p : Prog) (s s2 : State) (m x : Nat) (v : Int) : Prop where
   clean_x : (s2.get x).st = .clean
   val_x : (s2.get x).val = some v
   valCh : ValCh s s2
+  runRel : RunRel s s2
 
 theorem readNode_spec {p : Prog} {u : State → Nat → State × Bool} {f : Nat} (hu : UpdOK p u f)
     {m : Nat} (hmf : m ≤ f) {s : State} (h : InvR p s) (hl : RunLoc s m) {x : Nat} (hx : x < m)
@@ -194,7 +199,7 @@ theorem readNode_spec {p : Prog} {u : State → Nat → State × Bool} {f : Nat}
     have hs := h1.sigOk x hxp hk
     obtain ⟨v, hv⟩ := hs.2.2
     exact ⟨h1, f1, t.obs, t.running, t.kind m, t.sources_m, t.seen m, t.subs hxm m (Ne.symm hxm), t.ver m,
-      hs.1, by rw [hv]; rfl, ValCh.of_val_eq t.val⟩
+      hs.1, by rw [hv]; rfl, ValCh.of_val_eq t.val, RunRel.of_eq t.runs⟩
   | memo =>
     simp only
     have hp := hu s1 x h1 (by omega) hxnr (by
@@ -210,7 +215,9 @@ theorem readNode_spec {p : Prog} {u : State → Nat → State × Bool} {f : Nat}
     obtain ⟨v, hv⟩ := hp.inv.clean_val hxp (by rw [hp.frame.kind, hk]; simp) hc
     refine ⟨hp.inv, f1.trans (hp.frame.mono (by omega)), hp.obs.trans t.obs,
       fun i => (hp.running i).trans (t.running i), cf.1.trans (t.kind m), ?_, ?_, ?_, ?_, hc, ?_,
-      (ValCh.of_val_eq t.val).trans hp.valCh f1 (hp.frame.mono (by omega)) t.obs⟩
+      (ValCh.of_val_eq t.val).trans hp.valCh f1 (hp.frame.mono (by omega)) t.obs,
+      (RunRel.of_eq t.runs).trans hp.runRel (fun i hi => by rw [t.st]; exact hi)
+        (fun i hi => (hp.frame.clean i hi).1)⟩
     · exact cf.2.2.1.trans t.sources_m
     · exact cf.2.2.2.2.2.2.1.trans (t.seen m)
     · exact cf.2.2.2.1.trans (t.subs hxm m (Ne.symm hxm))
@@ -219,7 +226,8 @@ theorem readNode_spec {p : Prog} {u : State → Nat → State × Bool} {f : Nat}
       rw [hv]; rfl
 
 theorem rd_evalPost {p : Prog} {s s2 : State} {m x : Nat} {v : Int} (hl : RunLoc s m)
-    (hx : x < m) (rp : ReadPost p s s2 m x v) (ev : Ev) (hev : ∀ i, ev ≠ .unjust i) :
+    (hx : x < m) (rp : ReadPost p s s2 m x v) (ev : Ev) (hev : ∀ i, ev ≠ .unjust i)
+    (hev' : ∀ i, ev ≠ .ran i) :
     EvalPost p s ((s2.upd m fun n => { n with seen := n.seen ++ [(x, v, (s2.get x).ver)] }).emit ev) m
       [(x, v, (s2.get x).ver)] := by
   have hr2 : (s2.get m).running = true := by rw [rp.running]; exact hl.running
@@ -256,7 +264,7 @@ theorem rd_evalPost {p : Prog} {s s2 : State} {m x : Nat} {v : Int} (hl : RunLoc
     · rw [go i hi]
   have f2 : Frame s2 s' (m + 1) := by
     refine ⟨hlen, kE, fun i hi => ⟨by rw [stE]; exact hi, valE i⟩, fun i => by rw [verE]; exact Nat.le_refl _,
-      fun i _ => verE i, fun i hi => ?_, ?_, ?_, ?_, ?_⟩
+      fun i _ => verE i, fun i hi => ?_, ?_, ?_, ?_, ?_, ?_, ?_⟩
     · rw [go i (by omega)]; exact ⟨rfl, .inl rfl⟩
     · intro hl2 i hi
       rw [hlog, List.mem_append, List.mem_singleton] at hi
@@ -276,8 +284,19 @@ theorem rd_evalPost {p : Prog} {s s2 : State} {m x : Nat} {v : Int} (hl : RunLoc
       by_cases hi : i = m
       · subst hi; rw [gm]; exact ⟨rfl, rfl, rfl⟩
       · rw [go i hi]; exact ⟨rfl, rfl, rfl⟩
+    · exact ⟨[ev], hlog, fun e he i hi => by
+        rw [List.mem_singleton.1 he] at hi; exact absurd hi (hev' i)⟩
+    · refine RunsX.of_quiet ⟨[ev], hlog, fun e he => by
+        rw [List.mem_singleton.1 he]; exact ⟨hev, hev'⟩⟩ (fun i => ?_)
+      by_cases hi : i = m
+      · subst hi; rw [gm]
+      · rw [go i hi]
   refine ⟨hinv, ?_, rp.frame.trans f2, fun i => (runE i).trans (rp.running i), ?_, ?_, ?_,
-    rp.valCh.trans (ValCh.of_val_eq valE) rp.frame f2 rp.obs, hobs.trans rp.obs⟩
+    rp.valCh.trans (ValCh.of_val_eq valE) rp.frame f2 rp.obs, hobs.trans rp.obs,
+    rp.runRel.trans (RunRel.of_eq (fun i => by
+      by_cases hi : i = m
+      · subst hi; rw [gm]
+      · rw [go i hi])) (fun i hi => (rp.frame.clean i hi).1) (fun i hi => by rw [stE]; exact hi)⟩
   · refine ⟨hobs.trans (rp.obs.trans hl.obs), (kE m).trans (rp.kind_m.trans hl.kind), by rw [runE]; exact hr2,
       ?_, ?_, ?_⟩
     · intro r hr; rw [runE, rp.running] at hr; exact hl.lowest r hr
@@ -305,7 +324,8 @@ theorem Frame.of_nodes {s s' : State} (k : Nat) (hn : s'.nodes = s.nodes) (hl : 
   refine ⟨by rw [hn], fun i => by rw [g], fun i hi => by rw [g]; exact ⟨hi, rfl⟩,
     fun i => by rw [g]; exact Nat.le_refl _, fun i _ => by rw [g], fun i _ => by rw [g]; exact ⟨rfl, .inl rfl⟩,
     fun h i => by rw [hl]; exact h i, fun i _ => by rw [g], fun i _ hd => .inl (by rw [← g]; exact hd),
-    FlagRel.of_same (fun i => by rw [g]; exact ⟨rfl, rfl, rfl⟩)⟩
+    FlagRel.of_same (fun i => by rw [g]; exact ⟨rfl, rfl, rfl⟩), LogExt.of_eq hl,
+    RunsX.of_quiet (LogExt.of_eq hl) (fun i => by rw [g])⟩
 
 /-- an untracked read (`untrack(..)`) inside the body of the running memo `m` -/
 theorem rdU_evalPost {p : Prog} {u : State → Nat → State × Bool} {f : Nat} (hu : UpdOK p u f)
@@ -356,7 +376,7 @@ theorem rdU_evalPost {p : Prog} {u : State → Nat → State × Bool} {f : Nat} 
   have hclean : ∀ i, (s.get i).st = .clean → (s2.get i).st = .clean ∧ (s2.get i).val = (s.get i).val :=
     up.frame.clean
   refine ⟨inv3, ⟨hl.obs, cfk.trans hl.kind, hrun2, ?_, ?_, ?_⟩, fr, hrunE, cfsubs,
-    cfver, by rw [List.append_nil]; exact cfseen, ?_, rfl⟩
+    cfver, by rw [List.append_nil]; exact cfseen, ?_, rfl, up.runRel⟩
   · intro r hr; exact hl.lowest r (by rw [← hrunE]; exact hr)
   · show (s2.get m).sources = (s2.get m).seen.map (·.1)
     rw [cfsrc, cfseen]; exact hl.srcSeen
@@ -394,7 +414,7 @@ theorem evalE_spec {p : Prog} {u : State → Nat → State × Bool} {f : Nat} (h
       simp only [evalE, if_true]
       generalize readNode u s x = r at rp
       obtain ⟨s2, v⟩ := r
-      exact ⟨_, [], rd_evalPost hl hb rp (.rdv m x v) (by intro i; simp), fun ρ hρ rest => by
+      exact ⟨_, [], rd_evalPost hl hb rp (.rdv m x v) (by intro i; simp) (by intro i; simp), fun ρ hρ rest => by
         have := hρ _ List.mem_cons_self
         simp only [evalSnap, List.nil_append]
         rw [this]⟩
